@@ -24,7 +24,7 @@ RULE = ("tables of 0-60 rows x 1-6 columns (and of 8 192 - 70 000 rows x 1-3 col
         "value) and int64; missing value in {absent, 0, -9999, only in other columns, everywhere}; Float / Integer / default type; blank "
         "lines; LF / CRLF; write cases with 1-4 results in any type order; distinct by (case kind, dtype request, missing class, ncols, "
         "has-blank-lines, eol, header class)")
-REQUIRED_COUNTERS = ["columns_read_and_compared", "mask_checks", "other_column_independence_checks", "error_line_checks", "files_written_and_parsed", "read_after_write_checks", "same_path_rereads", "ragged_other_column_checks", "large_files_read", "reruns_after_the_file_was_repaired"]
+REQUIRED_COUNTERS = ["tables_through_the_command_line_tool", "columns_read_and_compared", "mask_checks", "other_column_independence_checks", "error_line_checks", "files_written_and_parsed", "read_after_write_checks", "same_path_rereads", "ragged_other_column_checks", "large_files_read", "reruns_after_the_file_was_repaired"]
 ASSUMPTIONS = ["don't-care: textual form of missing cells in written files, fractional cells read as Integer, NaN/inf, rows too short to hold the requested column, rank != 1 on write",
                "integers are generated within +-2^53 (cells are parsed through float())"]
 
@@ -418,10 +418,7 @@ def run_write(ctx, case):
     path = os.path.join(d, "out.csv")
     out = arr.invoke(prog, "EEMSWrite", "Out", {"OutFileName": path, "OutFieldNames": list(names)})
     if not out.ok:
-        if t["nrows"] == 0:
-            ctx.dontcare("write of zero-length arrays")
-            return
-        ctx.fail("write:raises-%s" % (out.inner() or out.err), {"error": str(out.exc)[:300], "kinds": kinds})
+        ctx.fail("write:raises-%s%s" % (out.inner() or out.err, ":table-without-rows" if t["nrows"] == 0 else ""), {"error": str(out.exc)[:300], "kinds": kinds})
         return
     ctx.count("files_written_and_parsed")
     with open(path, newline="", encoding="utf-8") as f:
@@ -459,5 +456,42 @@ def run_write(ctx, case):
         if arr.digest(o.value) != arr.digest(want) and not (c["integer"] and numpy.array_equal(numpy.ma.getdata(o.value), numpy.ma.getdata(want))):
             ctx.fail("roundtrip:not-identical:%s" % mixed, {"column": k, "got": arr.describe(o.value, 8), "want": arr.describe(want, 8)})
             return
+    if case["rseed"] % 4 == 0 and t["nrows"]:
+        # the same table read and written by a command file run through the command-line tool
+        from click.testing import CliRunner
+        from mpilot.cli.mpilot import main
+        d2 = ctx.scratch()
+        cols = [t["cols"][ci] for ci in dict.fromkeys(order)]
+        with open(os.path.join(d2, "in.csv"), "w") as f:
+            f.write(",".join("c%d" % k for k in range(len(cols))) + "\n")
+            for r in range(t["nrows"]):
+                f.write(",".join(repr(c["data"][r]) for c in cols) + "\n")
+        lines = ['R%d = EEMSRead(InFileName = "in.csv", InFieldName = c%d, DataType = %s)' % (k, k, "Integer" if c["integer"] else "Float") for k, c in enumerate(cols)]
+        lines.append('Out = EEMSWrite(OutFileName = "out2.csv", OutFieldNames = [%s])' % ", ".join("R%d" % k for k in range(len(cols))))
+        fp = os.path.join(d2, "model.mpt")
+        with open(fp, "w") as f:
+            f.write("\n".join(lines) + "\n")
+        try:
+            res = CliRunner(mix_stderr=False).invoke(main, ["eems-csv", fp])
+        except TypeError:
+            res = CliRunner().invoke(main, ["eems-csv", fp])
+        ctx.count("tables_through_the_command_line_tool")
+        if res.exit_code != 0 or not os.path.exists(os.path.join(d2, "out2.csv")):
+            ctx.fail("tool:read-write-model-fails", {"exit": res.exit_code, "exception": repr(res.exception)[:200]})
+            return
+        with open(os.path.join(d2, "out2.csv"), newline="", encoding="utf-8") as f:
+            rows2 = [r for r in csv.reader(f) if r]
+        if len(rows2) != t["nrows"] + 1:
+            ctx.fail("tool:row-count", {"got": len(rows2) - 1, "want": t["nrows"]})
+            return
+        for r, row in enumerate(rows2[1:]):
+            for k, c in enumerate(cols):
+                try:
+                    got = float(row[k])
+                except (ValueError, IndexError):
+                    got = None
+                if got is None or bits(got) != bits(c["data"][r]):
+                    ctx.fail("tool:cell-written-by-the-tool-does-not-parse-back", {"row": r, "col": k, "text": row[k] if k < len(row) else None, "want": repr(float(c["data"][r]))})
+                    return
     if len(ctx.samples) < 5 and t["nrows"]:
         ctx.sample({"kinds": kinds, "header": rows[0], "first_row": body[0] if body else None})
